@@ -897,7 +897,8 @@ func (self *PathNode) should2(op string, t thrift.Type, t2 thrift.Type) *PathNod
 func getStrHash(next *[]PathNode, key string, N int) *PathNode {
 	h := int(caching.StrHash(key) % uint64(N))
 	s := (*PathNode)(rt.IndexPtr(*(*unsafe.Pointer)(unsafe.Pointer(next)), sizePathNode, h))
-	for i := 0; i < N && s.Path.t == PathStrKey; i++ {
+	// a slot at or beyond len(*next) is not part of the table (a reused slice may still hold entries of an older tree there)
+	for i := 0; i < N && h < len(*next) && s.Path.t == PathStrKey; i++ {
 		if s.Path.str() == key {
 			return s
 		}
@@ -922,7 +923,7 @@ func seekIntHash(next unsafe.Pointer, key uint64, N int) int {
 func getIntHash(next *[]PathNode, key uint64, N int) *PathNode {
 	h := int(key % uint64(N))
 	s := (*PathNode)(rt.IndexPtr(*(*unsafe.Pointer)(unsafe.Pointer(next)), sizePathNode, h))
-	for i := 0; i < N && s.Path.t == PathIntKey; i++ {
+	for i := 0; i < N && h < len(*next) && s.Path.t == PathIntKey; i++ {
 		if uint64(s.Path.int()) == key {
 			return s
 		}
@@ -956,7 +957,8 @@ func (self *PathNode) GetByStr(key string, opts *Options) *PathNode {
 		n, _ := self.Node.len()
 		N := n * 2
 		// TODO: cap may change after Set. Use better way to store hash size
-		if N > 0 && cap(self.Next) >= N {
+		// (the loader builds the table only for maps above the threshold)
+		if n > StoreChildrenByIntHashShreshold && cap(self.Next) >= N {
 			if s := getStrHash(&self.Next, key, N); s != nil {
 				return s
 			}
@@ -989,7 +991,8 @@ func (self *PathNode) SetByStr(key string, val Node, opts *Options) (bool, error
 		n, _ := self.Node.len()
 		N := n * 2
 		// TODO: cap may change after Set. Use better way to store hash size
-		if N > 0 && cap(self.Next) >= N {
+		// (the loader builds the table only for maps above the threshold)
+		if n > StoreChildrenByIntHashShreshold && cap(self.Next) >= N {
 			if s := getStrHash(&self.Next, key, N); s != nil {
 				s.setNode(val)
 				return true, nil
@@ -1027,7 +1030,8 @@ func (self *PathNode) GetByInt(key int, opts *Options) *PathNode {
 		// TODO: size may change after Set. Use better way to store hash size
 		n, _ := self.Node.len()
 		N := n * 2
-		if N > 0 && cap(self.Next) >= N {
+		// (the loader builds the table only for maps above the threshold)
+		if n > StoreChildrenByIntHashShreshold && cap(self.Next) >= N {
 			if s := getIntHash(&self.Next, uint64(key), N); s != nil {
 				return s
 			}
@@ -1059,7 +1063,8 @@ func (self *PathNode) SetByInt(key int, val Node, opts *Options) (bool, error) {
 	if opts.StoreChildrenByHash {
 		n, _ := self.Node.len()
 		N := n * 2
-		if N > 0 && cap(self.Next) >= N {
+		// (the loader builds the table only for maps above the threshold)
+		if n > StoreChildrenByIntHashShreshold && cap(self.Next) >= N {
 			if s := getIntHash(&self.Next, uint64(key), N); s != nil {
 				s.setNode(val)
 				return true, nil
